@@ -1612,19 +1612,19 @@ def run_huge(ctx, cnfgen, quick):
         huge_case(ctx, cnfgen, 'description of 100000 characters, name of 70000 characters', long_fields(100000, 70000), ('fileobj', 'name'), names=True)
     else:
         for i, target in enumerate((8 * MIB - 1, 8 * MIB, 8 * MIB + 1)):
-            huge_case(ctx, cnfgen, '140000 clauses of 6 literals below 3000000', tall, VIAS if i == 2 else VIAS[i:i + 2], pad_to=target)
+            huge_case(ctx, cnfgen, '140000 clauses of 6 literals below 3000000', tall, VIAS if i == 2 else VIAS[i + 1:i + 2], pad_to=target)
         for i, target in enumerate((16 * MIB - 1, 16 * MIB, 16 * MIB + 1, 32 * MIB + 1)):
-            F, n, clauses = huge_case(ctx, cnfgen, '67000 clauses of 29 literals below 3000000', wide, VIAS if i == 2 else VIAS[i:i + 2], pad_to=target,
+            F, n, clauses = huge_case(ctx, cnfgen, '67000 clauses of 29 literals below 3000000', wide, VIAS if i == 2 else VIAS[i:i + 1], pad_to=target,
                                       both=i == 2)
         big = dict(F=F, n=n, clauses=clauses)
-        huge_case(ctx, cnfgen, '1300000 clauses of 3 literals', lambda: CNF(scrambled_clauses(seed + 2, 1300000, 3, 1, 900)), ('name', 'StringIO', 'stdout'))
-        for k in (65536, 131072, 140000, 300000):
-            huge_case(ctx, cnfgen, '%d variables with names' % (k + 3), named(k), VIAS, names=True)
-        for w in (30000, 65537, 131073, 400000):
-            huge_case(ctx, cnfgen, 'one clause of %d literals' % w, one_line(w), VIAS)
+        huge_case(ctx, cnfgen, '1300000 clauses of 3 literals', lambda: CNF(scrambled_clauses(seed + 2, 1300000, 3, 1, 900)), ('name', 'stdout'), both=False)
+        for i, k in enumerate((65536, 131072, 140000, 300000)):
+            huge_case(ctx, cnfgen, '%d variables with names' % (k + 3), named(k), VIAS[i:i + 2] or VIAS[:2], names=True)
+        for i, w in enumerate((30000, 65537, 131073, 400000)):
+            huge_case(ctx, cnfgen, 'one clause of %d literals' % w, one_line(w), VIAS[i:i + 2] or VIAS[:2])
         for k, j in ((100000, 70000), (131073, 131073), (2000000, 1000000)):
             huge_case(ctx, cnfgen, 'description of %d characters, name of %d characters' % (k, j), long_fields(k, j), VIAS, names=True)
-        for i in range(6):
+        for i in range(4):
             m, w = rng.choice([(66000, 11), (132000, 5), (70000, 17), (200000, 4), (9000, 200), (500, 5000)])
             huge_case(ctx, cnfgen, '%d clauses of %d literals (random instance %d)' % (m, w, i),
                       lambda m=m, w=w, i=i: CNF(scrambled_clauses(seed + 10 + i, m, w, 1, rng.choice([9, 300, 70000, 10 ** 9]))),
